@@ -154,7 +154,9 @@ func (x *Exec) sqrt(st *State, a *Term) *Term {
 		}
 	}
 	r := x.ufApp(st, "sqrt", SReal, []*Term{a})
-	st.axiom(mkImplies(mkLe(mkRealInt(0), a), mkAnd(mkLe(mkRealInt(0), r), mkEq(mkMul(r, r), a))))
+	sqax := mkImplies(mkLe(mkRealInt(0), a), mkAnd(mkLe(mkRealInt(0), r), mkEq(mkMul(r, r), a)))
+	registerDef(sqax, r)
+	st.axiom(sqax)
 	if !x.safety {
 		x.note("math.Sqrt of a negative argument yields an unconstrained value (NaN not modelled, A1)")
 	}
@@ -167,7 +169,9 @@ func (x *Exec) sincos(st *State, a *Term) (*Term, *Term) {
 	}
 	s := x.ufApp(st, "sin", SReal, []*Term{a})
 	c := x.ufApp(st, "cos", SReal, []*Term{a})
-	st.axiom(mkEq(mkAdd(mkMul(s, s), mkMul(c, c)), mkRealInt(1)))
+	pyth := mkEq(mkAdd(mkMul(s, s), mkMul(c, c)), mkRealInt(1))
+	registerDef(pyth, s, c)
+	st.axiom(pyth)
 	x.trigFacts(st, a, s, c)
 	return s, c
 }
@@ -258,7 +262,9 @@ func (x *Exec) acos(st *State, a *Term) *Term {
 	th := x.ufApp(st, "acos", SReal, []*Term{a})
 	_, c := x.sincos(st, th)
 	in := mkAnd(mkLe(mkRealInt(-1), a), mkLe(a, mkRealInt(1)))
-	st.axiom(mkImplies(in, mkAnd(mkEq(c, a), mkLe(mkRealInt(0), th), mkLe(th, piTerm()))))
+	acax := mkImplies(in, mkAnd(mkEq(c, a), mkLe(mkRealInt(0), th), mkLe(th, piTerm())))
+	registerDef(acax, th, c)
+	st.axiom(acax)
 	return th
 }
 
